@@ -9,12 +9,11 @@ Property theorems only.  Two models:
   waitlists.rs and threads.rs for any number of threads, one shim operation per step.
 Both are the executable objects the correspondence runs use (`drv_c09`).
 
-What is NOT a theorem here (compared only, see checks/c09.py and `DoraModel/Wait/MtxCheck.lean`): the
-no-lost-wake-up invariant J for the MUTEX of DESIGN A.3 and the queue/flag consistency Q are evaluated on every
-model state reached while accepting the traces of the real code, but their inductive proofs are not done
-(there is therefore no `no_lost_wakeup` statement for the mutex).  Proved: `mutual_exclusion`, `lock_word_free_iff`,
-`join_after_stop`, `notify_without_waiter_no_effect`, W for the condition (`condition_waiters_cover_queue`) and
-S (`no_lost_signal`).  Atomic exchange /
+All protocol invariants of DESIGN A.3 are theorems here: K (`mutual_exclusion`, `lock_word_free_iff`), Q
+(`queue_flag_consistency`), J (`no_lost_wakeup`), S (`no_lost_signal`), W (`condition_waiters_cover_queue`), the
+join rule (`join_after_stop`) and `asserts_hold`.  NOT a theorem: a global `deadlock_free` for programs whose
+critical sections terminate (it needs a notion of program; the harness' scheduler reports any deadlock of the
+real code on the explored schedules instead).  Atomic exchange /
 compare-exchange / fetch-add are single steps of the model by construction (their indivisibility in compiled
 code rests on C07's `lock`-prefixed encodings).
 -/
@@ -189,18 +188,10 @@ the wait table (where `wk1` pops the head of the queue, clears its flag and sign
 until the queue is empty), or by a `notify_all` that is between its `waiters.set(0)` and the end of its
 sweep, which wakes every queued thread.  `notify_one` reads `waiters` without the wait-table lock and
 `notify_all` resets it before taking the lock; the theorem says these races lose nobody.
-NOT proved (evaluated on every state of every accepted real trace instead, `MtxCheck.lean`): that the
-signalled thread then leaves `cv_blocking.wait` (invariant S) and the analogous statement J for the mutex. -/
-theorem condition_waiters_cover_queue (hr : Reach n s) (hnp : ∀ (t : Nat) (b : Bool), s.pcs[t]? ≠ some (PC.panicked b))
-    (hq : s.cq ≠ []) :
+(That the signalled thread then leaves `cv_blocking.wait` is `no_lost_signal`; the mutex analogue is `no_lost_wakeup`.) -/
+theorem condition_waiters_cover_queue (hr : Reach n s) (hq : s.cq ≠ []) :
     s.cw ≠ 0 ∨ ∃ (t : Nat) (pc : PC), s.pcs[t]? = some pc ∧ inFlightNotifyAll pc = true := by
-  have hz : s.pcs.countP isPanicked = 0 := by
-    rw [List.countP_eq_zero]
-    intro a ha hp
-    obtain ⟨t, ht⟩ := List.getElem?_of_mem ha
-    cases a <;> simp [isPanicked] at hp
-    exact hnp t _ ht
-  have h := (hr.cinv hz).w (List.length_pos_iff.mpr hq)
+  have h := (hr.cinv hr.nopanic).w (List.length_pos_iff.mpr hq)
   rcases h with h | h
   · exact Or.inl (by omega)
   · obtain ⟨pc, hmem, hp⟩ := List.countP_pos_iff.mp h
@@ -215,13 +206,63 @@ waits.  In every reachable state a thread that is asleep in `cv_blocking.wait` a
 (`wk2 … u`), so it will be woken; and a flag value read under `B_t` is the current one.  Together with
 `condition_waiters_cover_queue` and the FIFO pop of `wk1` this is the condition's no-lost-wake-up chain:
 queued ⇒ seen by the notifier ⇒ popped and flagged ⇒ signalled.
-NOT proved: the mutex analogue J (a queued locker is always covered by a contended word, a pending notifier
-or an awake slow-path thread) and the queue/flag consistency Q — evaluated on every visited state only. -/
+(The mutex analogue is `no_lost_wakeup`.) -/
 theorem no_lost_signal (hr : Reach n s) :
     (∀ (u : Nat) (k : Kind), s.pcs[u]? = some (PC.sleeping k) → s.b[u]? = some false →
         ∃ (t : Nat) (k' : Kind) (a : Bool) (r : Ret), s.pcs[t]? = some (PC.wk2 k' a r u)) ∧
     (∀ (u : Nat) (k : Kind) (f : Bool), s.pcs[u]? = some (PC.blk1 k f) → s.b[u]? = some f) :=
   ⟨hr.sinv.sig, hr.sinv.flag⟩
+
+/-- "the code's assertions hold": no reachable state has a thread whose `assert(previous == LOCKED ||
+previous == LOCKED_CONTENDED)` (`lock_op`), `assert(previous == LOCKED_CONTENDED)` (`unlock_slow`),
+`assert!(!blocking && next.is_null())` (`prepare_for_waitlist`) or `assert!(blocking)`
+(`remove_from_waitlist`) has failed. -/
+theorem asserts_hold (hr : Reach n s) : ∀ (t : Nat) (b : Bool), s.pcs[t]? ≠ some (PC.panicked b) := by
+  intro t b ht
+  have := (List.countP_eq_zero.mp hr.nopanic) _ (List.mem_of_getElem? ht)
+  simp [isPanicked] at this
+
+/-- queue / flag consistency (invariant Q of DESIGN A.3), for any number of threads: both wait queues are
+duplicate-free; every queued thread has its `blocking` flag set and is in the matching part of its code
+(`mtxPhase`: appended, on its way into or inside `DoraThread::block` from `lock_slow`; `condPhase`: appended,
+releasing the mutex, blocking, all inside `Condition::wait`); and a set flag means queued.  In particular a
+thread is in at most one queue, and a thread whose flag is clear is in none — what lets `block()` return. -/
+theorem queue_flag_consistency (hr : Reach n s) :
+    s.q.Nodup ∧ s.cq.Nodup ∧
+    (∀ u, u ∈ s.q → s.b[u]? = some true ∧ ∃ pc, s.pcs[u]? = some pc ∧ mtxPhase pc = true) ∧
+    (∀ u, u ∈ s.cq → s.b[u]? = some true ∧ ∃ pc, s.pcs[u]? = some pc ∧ condPhase pc = true) ∧
+    (∀ u : Nat, s.b[u]? = some true → u ∈ s.q ∨ u ∈ s.cq) :=
+  let h := hr.qinv hr.nopanic
+  ⟨h.qm.1, h.qc.1, h.qm.2, h.qc.2, h.bq⟩
+
+/-- no lost wake-up on the MUTEX (invariant J of DESIGN A.3), for any number of threads and every interleaving:
+whenever some thread is queued on the mutex,
+* the lock word is `LOCKED_CONTENDED` and the mutex has an owner (whose `unlock_op` will see 2 and notify), or
+* some thread is between its `exchange(UNLOCKED)` that returned 2 and its pop of the queue head (`wk0` / `wk1`), or
+* some thread is in the slow path of `lock_op` WITHOUT being queued — it was woken (or never slept) and is on
+  its way to `compare_exchange(UNLOCKED, LOCKED_CONTENDED)`, after which the first case holds again.
+With the word at 0 only the last two remain: exactly the statement "queue non-empty ∧ word = 0 ⇒ a notifier is
+between its exchange and its wakeup, or a woken thread is on its way to the CAS".  The unlocked
+`transition_to_locked_contended` / conditional enqueue race is what this excludes: a thread can never queue
+itself behind a word that nobody will reset with a notify. -/
+theorem no_lost_wakeup (hr : Reach n s) (hq : s.q ≠ []) :
+    (s.w = 2 ∧ ∃ (t : Nat) (pc : PC), s.pcs[t]? = some pc ∧ holds pc = true) ∨
+    (∃ (t : Nat) (pc : PC), s.pcs[t]? = some pc ∧ isPendingNotify pc = true) ∨
+    (∃ (u : Nat) (pc : PC), s.pcs[u]? = some pc ∧ slowPath pc = true ∧ u ∉ s.q) := by
+  rcases (hr.jinv hr.nopanic).j (List.length_pos_iff.mpr hq) with h | h | h
+  · left
+    refine ⟨h, ?_⟩
+    have hk := hr.kinv
+    have : s.pcs.countP holds ≠ 0 := fun h0 => by have := hk.zero.mpr h0; omega
+    obtain ⟨pc, hmem, hp⟩ := List.countP_pos_iff.mp (Nat.pos_of_ne_zero this)
+    obtain ⟨t, ht⟩ := List.getElem?_of_mem hmem
+    exact ⟨t, pc, ht, hp⟩
+  · right; left
+    obtain ⟨pc, hmem, hp⟩ := List.countP_pos_iff.mp h
+    obtain ⟨t, ht⟩ := List.getElem?_of_mem hmem
+    exact ⟨t, pc, ht, hp⟩
+  · right; right
+    exact exists_awake h
 
 /-! ### non-vacuity: a concrete run of the model (two threads contend for the mutex; the loser queues,
 sleeps, is popped and signalled by the owner's `unlock_op`, and acquires with `0→2`) -/
@@ -264,6 +305,18 @@ example : ∃ s, Reach 2 s ∧ s.pcs = [PC.wk2 .mtx false .idle 1, PC.sleeping .
         some ([PC.wk2 .mtx false .idle 1, PC.sleeping .mtx], [false, false]) := by decide
     rw [h] at this; simp at this
     exact ⟨s, Reach.init.run _ h, this.1, this.2⟩
+
+/-- hypothesis of `no_lost_wakeup` / `queue_flag_consistency` on reachable states with a non-empty mutex queue:
+after 13 events thread 1 is queued and asleep while thread 0 owns the mutex (word 2: first case); after 15 events
+the word is 0 and thread 0 is the pending notifier (second case); after 18 events the queue is empty again -/
+example : ∃ s, Reach 2 s ∧ s.q = [1] ∧ s.w = 0 ∧ s.pcs[0]? = some (PC.wk0 .mtx false .idle) := by
+  cases h : runTrace (init 2) (demoTrace.take 15) with
+  | none => exact absurd h (by decide)
+  | some s =>
+    have : (runTrace (init 2) (demoTrace.take 15)).map (fun s => (s.q, s.w, s.pcs[0]?)) =
+        some ([1], 0, some (PC.wk0 .mtx false .idle)) := by decide
+    rw [h] at this; simp at this
+    exact ⟨s, Reach.init.run _ h, this.1, this.2.1, this.2.2⟩
 
 /-- hypothesis of `join_after_stop` on a reachable state: thread 0 joins thread 1 after it stopped -/
 example : ∃ s, Reach 2 s ∧ s.pcs[0]? = some (PC.jn1 .idle 1 false) := by
